@@ -699,6 +699,9 @@ fn judge_inner(w: &World, fmt: &str, sim_now: i64, obs: &Obs, stats: &mut Stats)
     if w.is_dirty() {
         stats.bump("probe.dirty");
     }
+    if w.dirt.len() == 1 && w.dirt.contains(&DirtyKind::SubmoduleContent) {
+        stats.bump("probe.dirty_only_inside_submodule");
+    }
     if !w.dirt.is_empty() && !w.is_dirty() {
         stats.bump("probe.touched_but_clean");
     }
